@@ -220,6 +220,10 @@ impl Server {
             }
         }
         self.deferred_unsol = keep;
+        if self.plan.close_on_arrival == Some(self.arrival - 1) {
+            self.stop("planned-disconnect");
+            return;
+        }
         let tag = match req.op.resp_tag() {
             Some(t) => t,
             None => {
